@@ -769,6 +769,7 @@ impl Check for C13 {
         let exps = if tier == Tier::Quick { EXPERIMENTS_QUICK } else { EXPERIMENTS_THOROUGH };
         let trials = if tier == Tier::Quick { 100_000 } else { 400_000 };
         let mut m = serde_json::Map::new();
+        m.insert("enumerated_small_configurations".into(), serde_json::json!(enum_cells()));
         m.insert(
             "stat_budget".into(),
             serde_json::json!({
